@@ -54,7 +54,7 @@ struct Synth {
 // ------------------------------------------------------------------ application 3: a zoo of dependencies under an enumerated sub-tree
 // Every provider's callback resets its dependants to their defaults, so that applying a provider after a dependant is observable.
 struct Unit {
-    int bank, kind, gain, width, mix; bool enabled; int unison, type, detune; int lfo_shape, lfo_rate, lfo_depth; int s, attack; int premix;
+    int bank, kind, gain, width, mix; bool enabled; int unison, type, detune; int lfo_shape, lfo_rate, lfo_depth; int s, attack; int premix; int mixdown;
     static int kind_default(int bank) { static const int t[3] = {1, 2, 3}; return t[bank < 0 ? 0 : bank > 2 ? 2 : bank]; }
     static int mix_default(int kind) { static const int t[4] = {10, 20, 30, 40}; return t[kind < 0 ? 0 : kind > 3 ? 3 : kind]; }
     static int attack_default(int s) { static const int t[3] = {10, 33, 44}; return t[s < 0 ? 0 : s > 2 ? 2 : s]; }
@@ -63,7 +63,7 @@ struct Unit {
     void set_bank(int v) { bank = v < 0 ? 0 : v > 2 ? 2 : v; set_kind(kind_default(bank)); lfo_shape = 0; reset_lfo(); }
     void set_kind(int v) { kind = v < 0 ? 0 : v > 3 ? 3 : v; mix = mix_default(kind); }
     void set_enabled(bool e) { enabled = e; unison = 1; detune = detune_default(type); }
-    Unit() : bank(0), gain(50), width(50), enabled(false), unison(1), type(0), lfo_shape(0), s(0), attack(10), premix(0) { set_bank(0); detune = detune_default(0); }
+    Unit() : bank(0), gain(50), width(50), enabled(false), unison(1), type(0), lfo_shape(0), s(0), attack(10), premix(0), mixdown(0) { set_bank(0); detune = detune_default(0); }
     static const rtosc::Ports ports;
 };
 struct Deps { Unit units[2]; int master; Deps() : master(100) {} static const rtosc::Ports ports; };
@@ -145,6 +145,7 @@ inline const rtosc::Ports Synth::ports = {
 inline const rtosc::Ports Unit::ports = {
     // dependants are declared (and therefore saved) BEFORE the ports they depend on: loading must reorder
     {"premix::i", rProp(parameter) rMap(min, 0) rMap(max, 9) rDefault(0) rDoc("a sibling whose name contains the name of another port (mix) and is declared before it"), NULL, UINT(premix, o->premix = v < 0 ? 0 : v > 9 ? 9 : v)},
+    {"mixdown::i", rProp(parameter) rMap(min, 0) rMap(max, 9) rDefault(0) rDoc("a sibling whose name starts with the name of another port (mix) and is declared before it"), NULL, UINT(mixdown, o->mixdown = v < 0 ? 0 : v > 9 ? 9 : v)},
     {"attack::i", rProp(parameter) rMap(min, 0) rMap(max, 100) rDefaultDepends(s) rPresets(10, 33, 44) rDoc("attack: default depends on a port with a one-letter name"), NULL, UINT(attack, o->attack = v < 0 ? 0 : v > 100 ? 100 : v)},
     {"s::i", rProp(parameter) rMap(min, 0) rMap(max, 2) rDefault(0) rDoc("one-letter selector: resets attack"), NULL, UINT(s, o->s = v < 0 ? 0 : v > 2 ? 2 : v; o->attack = Unit::attack_default(o->s))},
     {"mix::i", rProp(parameter) rMap(min, 0) rMap(max, 100) rDepends(gain, width) rDefaultDepends(kind) rPresets(10, 20, 30, 40) rDoc("mix: declared dependencies and a preset dependent default"), NULL, UINT(mix, o->mix = v < 0 ? 0 : v > 100 ? 100 : v)},
@@ -264,6 +265,7 @@ inline const std::vector<Param> &deps_params() {
         ip("lfo_rate", [](Unit *x) { return x->lfo_rate; }, [](Unit *) { return 5; }, 0, 20);
         ip("lfo_depth", [](Unit *x) { return x->lfo_depth; }, [](Unit *) { return 6; }, 0, 20);
         ip("premix", [](Unit *x) { return x->premix; }, [](Unit *) { return 0; }, 0, 9);
+        ip("mixdown", [](Unit *x) { return x->mixdown; }, [](Unit *) { return 0; }, 0, 9);
         ip("s", [](Unit *x) { return x->s; }, [](Unit *) { return 0; }, 0, 2);
         ip("attack", [](Unit *x) { return x->attack; }, [](Unit *x) { return Unit::attack_default(x->s); }, 0, 100); }
     P.push_back({"/master", 1, 'i', [](void *o, int) { return vi(((Deps *)o)->master); }, [](void *, int) { return vi(100); }, yes, 0, 200, 0, {}});
